@@ -60,6 +60,7 @@ func RunBitPairs(w *World, r *Report, pkgRel, decName, encName string) {
 	// chains): the two are independent bits of the format, so the second is
 	// lost whenever both are set
 	encUnder := map[string]string{}
+	var encAlways int64 // bits the encoder sets unconditionally
 	var negs []string
 	var walk func(n ast.Node, fields []string)
 	walk = func(n ast.Node, fields []string) {
@@ -102,6 +103,11 @@ func RunBitPairs(w *World, r *Report, pkgRel, decName, encName string) {
 				walk(x.Else, fields)
 			}
 		case *ast.AssignStmt:
+			if x.Tok == token.OR_ASSIGN && len(x.Rhs) == 1 && len(fields) == 0 && len(negs) == 0 {
+				if c, ok := constInt(info, x.Rhs[0]); ok {
+					encAlways |= c
+				}
+			}
 			if x.Tok == token.OR_ASSIGN && len(x.Rhs) == 1 && len(fields) > 0 {
 				if c, ok := constInt(info, x.Rhs[0]); ok {
 					f := fields[len(fields)-1]
@@ -257,6 +263,8 @@ func RunBitPairs(w *World, r *Report, pkgRel, decName, encName string) {
 				other, when = other[1:], "true"
 			}
 			r.FailC("bitpair", key, []string{"dependent"}, w.Pos(efd.Pos()), fmt.Sprintf("flag %s: the encoder writes bits %s only when flag %s is %s, but the decoder reads the two flags from independent bits: the combination is not preserved", f, show(e), other, when), nil)
+		case overConstrained(f, decMask[f], d, encBits, encUnder, encAlways) != "":
+			r.FailC("bitpair", key, []string{"overconstrained"}, w.Pos(dfd.Pos()), fmt.Sprintf("flag %s: the decoder expects bits %s and also requires %s, which the encoder sets independently of this flag: the combination does not come back", f, show(d), overConstrained(f, decMask[f], d, encBits, encUnder, encAlways)), nil)
 		case show(e) != show(d):
 			r.FailC("bitpair", key, []string{"mismatch"}, w.Pos(efd.Pos()), fmt.Sprintf("flag %s: the encoder sets bits %s but the decoder tests bits %s", f, show(e), show(d)), nil)
 		default:
@@ -322,4 +330,36 @@ func decoderAlsoTests(mask int64, otherBits map[int64]bool) bool {
 		}
 	}
 	return true
+}
+
+// overConstrained: the decoder's test of flag f requires some bits to be
+// clear (sel&0x0240 == 0x0200 requires 0x0040 clear). That is faithful only
+// if the encoder never sets those bits together with the flag's own bits:
+// they belong to a flag under whose false branch f is written. Returns a
+// description of the offending bits, or "".
+func overConstrained(f string, mask int64, expect map[int64]bool, encBits map[string]map[int64]bool, encUnder map[string]string, encAlways int64) string {
+	var ones int64
+	for b := range expect {
+		ones |= b
+	}
+	clear := mask &^ ones
+	if clear == 0 {
+		return ""
+	}
+	if clear&encAlways != 0 {
+		return fmt.Sprintf("bits %#x to be clear, which the encoder always sets", clear&encAlways)
+	}
+	var names []string
+	for g, bits := range encBits {
+		if g == f {
+			continue
+		}
+		for b := range bits {
+			if b&clear != 0 && encUnder[f] != g {
+				names = append(names, fmt.Sprintf("bits %#x (flag %s) to be clear", b&clear, g))
+			}
+		}
+	}
+	sort.Strings(names)
+	return strings.Join(names, ", ")
 }
